@@ -125,7 +125,7 @@ def shape(line):
             k += 1
         if k > i and k < n and line[k] in ".)" and (k + 1 == n or line[k + 1] in " \t") and k - i <= 9:
             j, g = ws(k + 1)
-            parts.append("ORD.G" + g)
+            parts.append("ORD%s.G%s" % (k - i if k - i > 1 else "", g))
             i = j
             continue
         break
